@@ -34,10 +34,13 @@ EXTRAPS = {
     "nearest": (fn.extrap_nearest, {}), "linear_forward": (fn.extrap_linear_forward, {}),
     "linear_backward": (fn.extrap_linear_backward, {}), "expdecay": (fn.extrap_expdecay, {"time_constant": TAU}),
     "expratedecay": (fn.extrap_expratedecay, {"rate_constant": RATE}),
+    # the documented `adjust` hook f: the anchored bracket end becomes f(D); the inverse law must survive it
+    "linear_forward+adjust": (fn.extrap_linear_forward, {"adjust": lambda d: d * 0.5 + 1.0}),
+    "linear_backward+adjust": (fn.extrap_linear_backward, {"adjust": lambda d: d * 0.5 + 1.0}),
 }
 PAIRS = [("previous", "previous"), ("next", "next"), ("nearest", "nearest"), ("neighbors", "nearest"),
          ("neighbors", "previous"), ("neighbors", "next"), ("neighbors", "linear"), ("linear_forward", "linear"),
-         ("linear_backward", "linear"), ("expdecay", "expdecay"), ("expratedecay", "expratedecay")]
+         ("linear_backward", "linear"), ("linear_forward+adjust", "linear"), ("linear_backward+adjust", "linear"), ("expdecay", "expdecay"), ("expratedecay", "expratedecay")]
 
 
 def interp_shard(tier):
@@ -52,15 +55,20 @@ def interp_shard(tier):
             for fr in fracs:
                 t = dt * fr
                 # degenerate ends: a line through one point has no slope
-                if en == "linear_forward" and fr == 0:
+                if en.startswith("linear_forward") and fr == 0:
                     continue
-                if en == "linear_backward" and fr == 1:
+                if en.startswith("linear_backward") and fr == 1:
                     continue
                 for x, pv, nx in itertools.product(xs, brackets, brackets):
                     tally.add("evaluations")
                     T = lambda v: torch.tensor([v, v])
                     p2, n2 = efn(T(x), T(t), T(pv), T(nx), dt, **ekw)
                     back = ifn(p2, n2, T(t), dt, **ikw).tolist()
+                    if "adjust" in ekw:  # documented anchor: X(0) = f(D(0)) resp. X(dt) = f(D(dt))
+                        anchor, want = (p2, ekw["adjust"](T(pv))) if en.startswith("linear_forward") else (n2, ekw["adjust"](T(nx)))
+                        if anchor.tolist() != want.tolist():
+                            tally.violation(f"adjust-anchor:{en}", {"dt": dt, "extrap": en, "interp": inn, "sample": x, "sample_at": t, "prev": pv, "next": nx},
+                                            f"anchored bracket end {anchor.tolist()}, documented f(D) = {want.tolist()}", want, anchor)
                     tally.mark("nontrivial", (dt, en, inn, fr, x, pv, nx))
                     if not all(abs(b - x) <= 1e-5 * max(1, abs(x)) for b in back):
                         tally.violation(f"inverse:{en}->{inn}", {"dt": dt, "extrap": en, "interp": inn, "sample": x, "sample_at": t,
